@@ -47,6 +47,8 @@ class move_token_left_to_next_non_whitespace_token(structure.Rule):
                 continue
             if oToi.token_type_exists(token.pragma.pragma):
                 continue
+            if oToi.token_type_exists(parser.preprocessor):
+                continue
             lReturn.append(oToi)
         return lReturn
 
